@@ -2378,3 +2378,8 @@ mod html {
         assert_eq!(iter.next(), None);
     }
 }
+
+// Verification hook of /verif (C11): compiled only by `cargo kani`.
+#[cfg(kani)]
+#[path = "/verif/kani/in_attributes.rs"]
+mod verif_kani;
